@@ -1,4 +1,5 @@
 import Fdo.Kex.Crypter
+import Fdo.Facts
 /-
 C05 — TO2 messages after ProveDevice are confidential and tamper-evident.
 Theorems about the decision logic of the tunnel decrypter, for arbitrary primitives: a
@@ -140,5 +141,13 @@ theorem unpad16_some (b q : Bytes) (h : unpad16 b = some q) :
 
 /-- Non-vacuity: the strict unpadding accepts a correctly padded block. -/
 example : unpad16 ([1, 2, 3] ++ List.replicate 13 13) = some [1, 2, 3] := by decide
+
+
+/-- **What the source does, in which order** (regenerated call-order facts of
+`SessionCrypter.Decrypt` / `Encrypt`): the MAC is recomputed and compared before anything is
+decrypted; encryption computes the MAC over what it has encrypted. -/
+theorem code_facts :
+    Fdo.Facts.allBefore "SessionCrypter.Decrypt" ["Digest", "Equal"] "Decrypt" = true ∧
+    Fdo.Facts.before "SessionCrypter.Encrypt" "Encrypt" "Digest" = true := by decide +kernel
 
 end Fdo.Props.C05
